@@ -88,6 +88,16 @@ def gen(seed, tier="quick"):
     # true attitude: piecewise-constant body rates
     ang = ic.uniform(0, math.pi)
     q = rm.quat_exp(ang * _rand_unit(ic))
+    special = ic.random()
+    if special < 0.10:
+        # attitudes exactly half a turn from the reference (the MRP unit sphere): heading south, upside down, ...
+        q = np.array(ic.choice([[0.0, 0, 0, 1], [0.0, 1, 0, 0], [0.0, 0, 1, 0]] + [[0.0] + _rand_unit(ic).tolist()]), dtype=float)
+    elif special < 0.20:
+        # level (pure heading): the measured specific force is exactly (anti)parallel to what a level estimate predicts
+        q = rm.quat_exp([0, 0, ic.choice([0.0, 0.0, ic.uniform(-math.pi, math.pi)])])
+    level_start = 0.10 <= special < 0.20
+    if level_start:
+        bias = [0.0, 0.0, bias[2]]  # no roll/pitch rate bias: estimate and truth stay exactly level
     segs = []
     t = 0.0
     while t < tf:
@@ -95,6 +105,9 @@ def gen(seed, tier="quick"):
         mag = work.choice([0.0, 0.1, 1.0, 3.0, 10.0, 10.0, 30.0])
         segs.append((t, (mag * _rand_unit(work)).tolist()))
         t += dur
+
+    if level_start:
+        segs[0] = (0.0, [0.0, 0.0, ic.choice([0.0, 0.5])])  # stays level while the first corrections run
 
     def omega_at(tt):
         w = segs[0][1]
@@ -229,7 +242,7 @@ def gen(seed, tier="quick"):
     # initial estimator state: default, or an in-domain draw
     x_init = None
     W_init = None
-    if ic.random() < 0.6:
+    if ic.random() < 0.6 and not level_start:
         rr = math.tan(ic.uniform(0, math.pi) / 4) * _rand_unit(ic)
         if ic.random() < 0.35:
             # body z axis (nearly) along the horizontal field direction: the geometry in which the
